@@ -351,17 +351,54 @@ def call_method(ex, st, o, name, pos, kw, node):
             fv = ex.read_field(st, o, name, node)
             return call_value(ex, st, fv, pos, kw, node)
         raise Unsupported(f"unknown method {name} on {ex.static_classes(o)}", node)
-    # contract attached to the static class wins (class-level contract for all receivers)
-    for c in ex.static_classes(o):
-        key = c + "." + name
-        if key in ex.S.contracts and not ex.S.contracts[key].inline and len(groups) > 1:
-            fi = ex.P.lookup(c, name)
-            return call_function(ex, st, fi, o, pos, kw, node, contract_key=key)
-    if len(groups) == 1:
-        (fi, concs), = groups.items()
-        return call_function(ex, st, fi, o, pos, kw, node)
-    out = []
+    # regroup the concrete receiver classes by the contract that governs them: the nearest class in the MRO
+    # with a (non-inline) contract for this method -- a class-level contract covers its subclasses -- or,
+    # failing that, the resolved function itself
+    exact = getattr(o, "exactcls", None)
+    regroup = {}
+    missing = [c for fi, concs in groups.items() if fi is None for c in concs]
+    if missing and not ex.spec_mode:
+        # AttributeError for receivers of a class without this method
+        ex.oblige(st, "def", f"receiver-has-method-{name}", node,
+                  z3.Not(z3.Or([cls_of(o.t) == ex.cid(c) for c in missing])))
+        st.assume(z3.Not(z3.Or([cls_of(o.t) == ex.cid(c) for c in missing])))
     for fi, concs in groups.items():
+        if fi is None:
+            continue
+        for c in concs:
+            key = None
+            if exact is None and c in ex.P.classes:
+                for m in ex.P.mro(c):
+                    k = m + "." + name
+                    if k in ex.S.contracts and not ex.S.contracts[k].inline:
+                        key = k
+                        break
+            if key is not None:
+                kfi = ex.P.lookup(key.split(".")[0], name)
+                regroup.setdefault(("contract", key, kfi), []).append(c)
+            else:
+                regroup.setdefault(("fn", None, fi), []).append(c)
+    if len(regroup) == 1:
+        ((kind, key, fi), concs), = regroup.items()
+        if fi is None:
+            raise Unsupported(f"method {name} missing on {concs}", node)
+        return call_function(ex, st, fi, o, pos, kw, node, contract_key=key)
+    if ex.spec_mode:
+        # contract clauses cannot fork: evaluate every resolution and select by the receiver's class
+        merged = None
+        for (kind, key, fi), concs in regroup.items():
+            if fi is None:
+                continue
+            o2 = SV("ref", o.t, Ty("obj", classes=concs))
+            r = call_function(ex, st, fi, o2, pos, kw, node, contract_key=key)
+            if len(r) != 1 or isinstance(r[0][1], Exc):
+                raise Unsupported(f"forking method {name} in a contract clause", node)
+            v = r[0][1]
+            cond = z3.Or([cls_of(o.t) == ex.cid(c) for c in concs])
+            merged = v if merged is None else ex.merge(cond, v, merged, st)
+        return [(st, merged)]
+    out = []
+    for (kind, key, fi), concs in regroup.items():
         cond = z3.Or([cls_of(o.t) == ex.cid(c) for c in concs])
         s2 = st.copy()
         if not ex.noprune and not ex.feasible(s2, cond):
@@ -370,7 +407,7 @@ def call_method(ex, st, o, name, pos, kw, node):
         o2 = SV("ref", o.t, Ty("obj", classes=concs))
         if fi is None:
             raise Unsupported(f"method {name} missing on {concs}", node)
-        out.extend(call_function(ex, s2, fi, o2, pos, kw, node))
+        out.extend(call_function(ex, s2, fi, o2, pos, kw, node, contract_key=key))
     return out
 
 
@@ -609,7 +646,13 @@ def apply_contract(ex, st, fi, c, env, node):
     # requires
     for lab, text in c.requires:
         g = spec_eval(ex, st, env, text)
-        ex.oblige(st, "pre-call", f"{c.target}:{lab}", node, g)
+        if lab.startswith("inv:"):
+            # a structural invariant of the simulation: assumed to hold at every call boundary (its
+            # re-establishment between the steps of one event is not proved; listed as an assumption)
+            ex.assumed_used.add(f"invariant {lab[4:]} is assumed at internal call sites of {c.target} (proved preserved per function, not across cascades)")
+            st.assume(g)
+        else:
+            ex.oblige(st, "pre-call", f"{c.target}:{lab}", node, g)
     old_heap = dict(st.heap)
     old = (old_heap, dict(env), getattr(st, "epoch", 0))
     mods, star, ovar = parse_modifies(ex, st, env, c.modifies)
@@ -654,6 +697,33 @@ def apply_contract(ex, st, fi, c, env, node):
     for lab, text in c.ensures:
         g = spec_eval(ex, st, env, text, old=old, result=result)
         st.assume(g)
+    if c.pure and result is not None:
+        # a pure function called again on the same arguments, with no write to a pre-existing object in between,
+        # returns the same value (for a list: a list with the same contents)
+        memo = st.known.setdefault("$pure", {})
+        memo = dict(memo)
+        st.known["$pure"] = memo
+        key = (c.target, tuple(sorted((k, v.t.get_id()) for k, v in env.items() if hasattr(v, "t"))), st.known.get("$mut", 0))
+        if key in memo:
+            prev = memo[key]
+            if result.k == "ref" and result.h is not None and result.h.kind == "list":
+                st.assume(ex.seq_of(result, st) == prev[1])
+            else:
+                st.assume(ex.to_val(result) == prev[0])
+        else:
+            memo[key] = (ex.to_val(result), ex.seq_of(result, st) if (result.k == "ref" and result.h is not None and result.h.kind == "list") else None)
+    if cur is not None and not ex.call_stack:
+        for key in (c.target, fi.name):
+            for text in cur.lemma_after.get(key, []):
+                e2 = dict(ex.unit_env_view(st))
+                try:
+                    g = spec_eval(ex, st, e2, text, old=ex.entry_old, result=result)
+                except Unsupported as u:
+                    if "unknown name" in u.msg:
+                        continue            # the lemma mentions a local that does not exist yet at this call
+                    raise
+                ex.assumed_used.add(f"assumed after the call to {c.target} in {cur.target}: {text}")
+                st.assume(g)
     outs.append((st, result))
     return outs
 
